@@ -429,6 +429,11 @@ func (w *World) callAPI(in *Inst, it *Item) string {
 		switch {
 		case it.CtxTimeout > 0:
 			return context.WithTimeout(context.Background(), it.CtxTimeout)
+		case it.CtxTimeout < -1:
+			// no deadline, cancelled -CtxTimeout after the call was made
+			c, cancel := context.WithCancel(context.Background())
+			tm := time.AfterFunc(-it.CtxTimeout, cancel)
+			return c, func() { tm.Stop(); cancel() }
 		case it.CtxTimeout < 0:
 			c, cancel := context.WithCancel(context.Background())
 			cancel()
